@@ -549,6 +549,76 @@ def rule_version(F, R):
     R.check(ok, "R-C15-5", "configurable version gate", f.loc(), "version comparison dominates reading the parameters", "parameters are read before / without the version check")
 
 
+SIZEOF = {"bool": 1, "char": 1, "signed char": 1, "unsigned char": 1, "short": 2, "unsigned short": 2, "int": 4, "unsigned int": 4, "long": 8, "unsigned long": 8,
+          "long long": 8, "unsigned long long": 8, "float": 4, "double": 8}
+
+
+def rule_hash_coverage(F, R):
+    """R-C15-6: the content hash that protects tensor payloads covers every byte of every element"""
+    fs = [f for f in F.functions.values() if f.qn == "nano::detail::hash" and len(f.params) == 2 and f.relfile == "include/nano/core/hash.h"]
+    R.floor("R-C15-6", len(fs), 2, "detail::hash instantiations")
+
+    def size_of(t):
+        return SIZEOF.get((t or "").replace("const ", "").replace("&", "").replace("*", "").strip())
+    for f in sorted(fs, key=lambda f: f.key):
+        tsc = (f.params[0].get("t") or "").replace("const ", "").replace("*", "").strip()
+        S = size_of(tsc)
+        inst = "hash<%s>" % tsc
+        if S is None:
+            R.incomplete("R-C15-6", inst, f.loc(), "unknown element type")
+            continue
+        dn, sn = f.params[0]["n"], f.params[1]["n"]
+        loops = [x for x in f.nodes() if x["k"] == "for"]
+        okl = len(loops) == 1
+        iv = None
+        if okl:
+            lp = loops[0]
+            ivs = [v for v in walk(lp["c"][lp["r"].index("init")]) if v["k"] == "var"]
+            iv = ivs[0]["n"] if ivs else None
+            okl = iv is not None and pp(lp["c"][lp["r"].index("cond")]) == "(%s < %s)" % (iv, sn) and pp(lp["c"][lp["r"].index("inc")]) in ("(++%s)" % iv, "(%s++)" % iv) and \
+                literal_value(ivs[0]["c"][0]) == 0
+        R.check(bool(okl), "R-C15-6", inst + " range", f.loc(), "every element 0..size-1 is hashed", "the hash loop does not visit every element")
+        hc = [c for c in f.calls(lambda c: callee(c) == "nano::detail::hash_combine")]
+        if len(hc) != 1:
+            R.incomplete("R-C15-6", inst, f.loc(), "expected one hash_combine per element")
+            continue
+        x = args(hc[0])[1]
+        covered, how = None, ""
+        n = skip(x)
+        while n is not None and n["k"] == "cast" and not n.get("ex"):
+            n = skip(n["c"][0])
+        elem = "%s[%s]" % (dn, iv)
+        if n is not None and n["k"] == "cast" and n.get("ck") == "LValueBitCast" and pp(n["c"][0]) == elem:
+            covered, how = size_of(n.get("t")), "reinterpreted as %s" % n.get("t")
+        elif n is not None and n["k"] == "cast" and n.get("ex") and pp(n["c"][0]) == elem and size_of(n.get("t")) is not None and size_of(tsc) is not None and tsc not in ("float", "double"):
+            covered, how = min(size_of(n.get("t")), S) if size_of(n.get("t")) >= S else size_of(n.get("t")), "converted to %s" % n.get("t")
+        elif n is not None and n["k"] == "ref" and n.get("dk") == "var":
+            v, _ = find_var(f, n["d"])
+            def addr_of(z):
+                z = skip(z)
+                while z is not None and z["k"] == "cast":
+                    z = skip(z["c"][0])
+                if z is not None and z["k"] == "un" and z["op"] == "&":
+                    return skip(z["c"][0])
+                return None
+            mc = [c for c in f.calls(lambda c: callee(c) in ("memcpy", "std::memcpy")) if v is not None and (addr_of(args(c)[0]) or {}).get("d") == v["d"]]
+            if v is not None and len(mc) == 1:
+                a = args(mc[0])
+                cnt = skip(a[2])
+                while cnt is not None and cnt["k"] == "cast":
+                    cnt = skip(cnt["c"][0])
+                nbytes = cnt.get("cv") if cnt is not None and cnt["k"] == "traits" else literal_value(cnt) if cnt is not None else None
+                src = addr_of(a[1])
+                src_ok = src is not None and pp(src) == elem
+                if src_ok and nbytes is not None and size_of(v.get("t")) is not None:
+                    covered, how = min(int(nbytes), size_of(v.get("t"))), "memcpy of %s bytes into a %s" % (nbytes, v.get("t"))
+        if covered is None:
+            R.incomplete("R-C15-6", inst, f.loc(hc[0]), "cannot tell how many bytes of an element reach hash_combine: %s" % pp(x)[:60])
+            continue
+        R.check(covered == S, "R-C15-6", inst, f.loc(hc[0]), "all %d bytes of an element reach the hash (%s)" % (S, how),
+                "only %d of the %d bytes of a %s element reach the content hash (%s): alterations of the remaining payload bytes go undetected" % (covered, S, tsc, how))
+
+
 def run(ctx):
     R = ctx.report
     tus = sorted(set(ctx.all_tus()) | {"witness/stream_inst.cpp"}) if ctx.thorough else QUICK_TUS
@@ -560,3 +630,4 @@ def run(ctx):
     rule_checked_reads(F, R, fns)
     rule_tensor_header(F, R)
     rule_version(F, R)
+    rule_hash_coverage(F, R)
